@@ -117,6 +117,8 @@ def err_enum(exc):
         return "neg"
     if "is not homogeneous to" in msg:
         return "dim"
+    if "cannot be changed after initialization" in msg:
+        return "immutable"
     if "should be of type" in msg:
         return "type"
     if "must be instances of" in msg or "only accept ModelingObjects" in msg:
